@@ -14,8 +14,8 @@ var CollectionAliases = []Alias{
 	{Glob: "*param#0.capacity", Name: "C"}, {Glob: "*free:param#0.capacity", Name: "C"},
 	{Glob: "*param#0.maxCapacity", Name: "M"}, {Glob: "*free:param#0.maxCapacity", Name: "M"},
 	{Glob: "*param#0.gap", Name: "G"}, {Glob: "*free:param#0.gap", Name: "G"},
-	{Glob: "*var:pos", Name: "P"}, {Glob: "*free:var:pos", Name: "P"},
-	{Glob: "*var:options.TailEvents", Name: "T"}, {Glob: "*free:var:options.TailEvents", Name: "T"},
+	{Glob: "*var:int64", Name: "P"}, {Glob: "*free:var:int64", Name: "P"},
+	{Glob: "*var:pkg/state.Watch*Options.TailEvents", Name: "T"}, {Glob: "*free:var:pkg/state.Watch*Options.TailEvents", Name: "T"},
 }
 
 const (
@@ -143,30 +143,41 @@ func runC02(c *Ctx) {
 		// no growth after the slot store
 		c.NoReach("R02.2", "no capacity/stream change after the slot store", pub, After(pub, slotStore), 1, grow, CutSpec{})
 
+		// accepted forms: `capacity *= 2; if capacity > maxCapacity { capacity = maxCapacity }` and
+		// `capacity = min(capacity*2, maxCapacity)`
 		okVals := true
-		sawClamp := false
+		sawClamp, sawDouble, sawMin := false, false, false
 
 		for _, in := range Find(pub, capStore) {
 			v := p.LinOf(in.(*ssa.Store).Val, al).String()
 
 			switch v {
 			case "+2*C":
+				sawDouble = true
 			case "+1*M":
 				sawClamp = true
+			case "+1*min(+1*M,+2*C)":
+				sawMin = true
 			default:
 				okVals = false
 				d = v
 			}
 		}
 
-		c.Check(okVals && sawClamp, "R02.2", FuncName(pub)+" :: capacity ∈ {2·capacity, maxCapacity} with a clamp", fpos(pub), "doubling with clamp", "capacity set to "+d+" / clamp present: "+fmt.Sprint(sawClamp))
-		c.MustCut("R02.2", "clamp store ⊣ {2·capacity > maxCapacity}", pub, func(in ssa.Instruction) bool {
-			return capStore(in) && p.LinOf(in.(*ssa.Store).Val, al).String() == "+1*M"
-		}, CutSpec{Edges: p.LinEdge(al, "le:-2*C+1*M+1")}, 1)
-		// the unclamped value never survives above maxCapacity: from the doubling store, reaching the append requires passing the clamp test
-		c.MustFollow("R02.2", "after doubling, the clamp test is passed before the buffer is extended", pub, func(in ssa.Instruction) bool {
-			return capStore(in) && p.LinOf(in.(*ssa.Store).Val, al).String() == "+2*C"
-		}, streamStore, CutSpec{Edges: p.LinEdge(al, "le:-2*C+1*M+1", "le:+2*C-1*M")}, 1)
+		c.Check(okVals && (sawMin && !sawDouble || sawDouble && sawClamp), "R02.2", FuncName(pub)+" :: capacity ∈ {2·capacity, maxCapacity} with a clamp", fpos(pub), "doubling with clamp", "capacity set to "+d+" / clamp present: "+fmt.Sprint(sawClamp || sawMin))
+
+		if sawMin && !sawDouble && !sawClamp {
+			c.OK("R02.2", FuncName(pub)+" :: clamp store ⊣ {2·capacity > maxCapacity}", fpos(pub), "clamped by min(2·capacity, maxCapacity)")
+			c.OK("R02.2", FuncName(pub)+" :: after doubling, the clamp test is passed before the buffer is extended", fpos(pub), "clamped by min(2·capacity, maxCapacity)")
+		} else {
+			c.MustCut("R02.2", "clamp store ⊣ {2·capacity > maxCapacity}", pub, func(in ssa.Instruction) bool {
+				return capStore(in) && p.LinOf(in.(*ssa.Store).Val, al).String() == "+1*M"
+			}, CutSpec{Edges: p.LinEdge(al, "le:-2*C+1*M+1")}, 1)
+			// the unclamped value never survives above maxCapacity: from the doubling store, reaching the append requires passing the clamp test
+			c.MustFollow("R02.2", "after doubling, the clamp test is passed before the buffer is extended", pub, func(in ssa.Instruction) bool {
+				return capStore(in) && p.LinOf(in.(*ssa.Store).Val, al).String() == "+2*C"
+			}, streamStore, CutSpec{Edges: p.LinEdge(al, "le:-2*C+1*M+1", "le:+2*C-1*M")}, 1)
+		}
 
 		okApp := true
 
@@ -207,7 +218,7 @@ func runC02(c *Ctx) {
 			for _, in := range Find(f, func(in ssa.Instruction) bool {
 				st, ok := in.(*ssa.Store)
 
-				return ok && Glob("var:bootstrapList", p.Desc(st.Addr))
+				return ok && Glob("var:[]pkg/resource.Resource", p.Desc(st.Addr))
 			}) {
 				v := Fwd(in.(*ssa.Store).Val)
 
@@ -240,7 +251,7 @@ func runC02(c *Ctx) {
 			for _, in := range Find(del, func(in ssa.Instruction) bool {
 				st, ok := in.(*ssa.Store)
 
-				return ok && Glob("free:var:pos", p.Desc(st.Addr))
+				return ok && Glob("free:var:int64", p.Desc(st.Addr))
 			}) {
 				n++
 
@@ -295,7 +306,7 @@ func runC02(c *Ctx) {
 			return func(in ssa.Instruction) bool {
 				st, ok := in.(*ssa.Store)
 
-				return ok && Glob("free:var:pos", p.Desc(st.Addr)) && p.LinOf(st.Val, al).String() == want
+				return ok && Glob("free:var:int64", p.Desc(st.Addr)) && p.LinOf(st.Val, al).String() == want
 			}
 		}
 
@@ -324,7 +335,7 @@ func runC02(c *Ctx) {
 			c.Check(len(Find(del, posStore("+1*P+1"))) == 1 && len(Find(del, func(in ssa.Instruction) bool {
 				st, ok := in.(*ssa.Store)
 
-				return ok && Glob("free:var:pos", p.Desc(st.Addr))
+				return ok && Glob("free:var:int64", p.Desc(st.Addr))
 			})) == 1, "R02.5", FuncName(del)+" :: the only change of pos is pos+1", fpos(del), "yes", "pos is changed in another way")
 		} else {
 			var slices []*ssa.Slice
@@ -402,9 +413,9 @@ func runC02(c *Ctx) {
 			sendEvent := func(in ssa.Instruction) bool {
 				call, ok := in.(ssa.CallInstruction)
 
-				return ok && p.CalleeName(call) == gSend && Glob("*var:event", p.ArgDesc(call, 2))
+				return ok && p.CalleeName(call) == gSend && p.ArgDesc(call, 2) == "*var:pkg/state.Event"
 			}
-			idEq := FactEdge("eq(call:(pkg/resource.Metadata).ID(*call:(pkg/resource.Resource).Metadata(*var:event.Resource)),free:param#2)")
+			idEq := FactEdge("eq(call:(pkg/resource.Metadata).ID(*call:(pkg/resource.Resource).Metadata(*var:pkg/state.Event.Resource)),free:param#2)")
 			c.MustCut("R02.7", "send(stream event) ⊣ {event.Resource.ID == id}", del, sendEvent, CutSpec{Edges: idEq}, 1)
 			// the test that gates the send is evaluated on the value that is sent (after the last slot read)
 			c.MustFollow("R02.7", "after a slot read, a send needs a fresh ID test", del, isStreamRead, sendEvent, CutSpec{Edges: idEq}, 1)
